@@ -325,6 +325,7 @@ class Parser:
 
         # Push to current scope
         self.current_scope().push_member(child, name)
+        self.copy_p_tracking(p)  # from 1 => 0, the line of keyword `import`
 
     @override_docstring(r_option)
     def p_option(self, p: P) -> None:
@@ -618,7 +619,10 @@ class Parser:
         if isinstance(p[1], Constant):
             raise ConstInEnumUnsupported.from_token(token=p[1])
         if isinstance(p[1], Proto):
-            raise ImportInEnumUnsupported.from_token(token=p[1])
+            # Cite the import statement, p[1] is the imported proto itself.
+            raise ImportInEnumUnsupported(
+                lineno=p.lineno(1), filepath=self.current_filepath()
+            )
         if isinstance(p[1], Option):
             raise OptionInEnumUnsupported.from_token(token=p[1])
         if isinstance(p[1], Enum):
@@ -699,7 +703,10 @@ class Parser:
         if isinstance(p[1], Constant):
             raise ConstInMessageUnsupported.from_token(token=p[1])
         if isinstance(p[1], Proto):
-            raise ImportInMessageUnsupported.from_token(token=p[0])
+            # Cite the import statement, p[1] is the imported proto itself.
+            raise ImportInMessageUnsupported(
+                lineno=p.lineno(1), filepath=self.current_filepath()
+            )
         raise StatementInMessageUnsupported(
             lineno=p.lineno(1), filepath=self.current_filepath()
         )
